@@ -2,7 +2,7 @@
    Partial by design (DESIGN §C14): the eigen solvers are certificate-checked oracles in the correspondence. *)
 From Coq Require Import List Arith Bool Reals Ring Permutation Sorted.
 From PV Require Import Base.Index Base.Sum Np.Array Model.Sparse Model.Repr Model.C01Conv Model.C01Coo Model.C01Ttm Np.NpR Model.C14Nvecs Model.C14Gram Proofs.C14Sums
-                       Proofs.C14Split Proofs.C14GramSp Proofs.C14GramT Proofs.C14Post Model.C14Unfold Proofs.C14Unfold Model.C01Unique Model.C14SpPath Proofs.C14Coo Proofs.C14SpPath Model.C14SpChain Proofs.C14SpChain Model.C14SpPost Proofs.C14SpPost Model.C14CpTucker Proofs.C14CpTucker Proofs.C14KyFan.
+                       Proofs.C14Split Proofs.C14GramSp Proofs.C14GramT Proofs.C14Post Model.C14Unfold Proofs.C14Unfold Model.C01Unique Model.C14SpPath Proofs.C14Coo Proofs.C14SpPath Model.C14SpChain Proofs.C14SpChain Model.C14SpPost Proofs.C14SpPost Model.C14CpTucker Proofs.C14CpTucker Proofs.C14KyFan Model.C14Held Proofs.C14Held.
 Import ListNotations.
 
 Section C14_ring.
@@ -186,6 +186,25 @@ Theorem C14_sparse_oneway_answered : forall (S : sparse V) (I : nat),
     forall a b, a < I -> b < I -> mget v0 Y a b = gram_spec v0 vadd vmul [I] (den_sp v0 S) 0 a b.
 Proof. exact (sp_oneway_answered V v0 v1 vadd vmul vsub vopp Vring isz). Qed.
 
+(* wave 5 — what the property demands of holders of another element type B (open findings C14-F4 / C14-F5; the model is the REPAIRED
+   behaviour, fixes/C14-F4.diff / fixes/C14-F5.diff): the values are converted entry by entry BEFORE any product — sptensor.nvecs:
+   tnt.astype(float64) = the code path on sp_double S, accepted on the whole domain, solver input = Gram matrix in V of the converted
+   entries; ttensor.nvecs: the Gram matrix of the Tucker tensor the converted core and factors denote in V *)
+Theorem C14_gram_sparse_held : forall (B : Type) (b0 : B) (dbl : B -> V), dbl b0 = v0 -> forall (S : sparse B) (n a b : nat),
+  let s := sshape S in
+  wf_sp isz (sp_double dbl S) -> n < length s -> ~ (nth n s 0 = 1 /\ size (remove_nth n s) = 1) -> a < nth n s 0 -> b < nth n s 0 ->
+  exists Y, gram_sp_code_path v0 vadd vmul (sp_double dbl S) n = Some Y /\
+    Y = gram_sp_impl v0 vadd vmul (sp_double dbl S) n /\
+    mget v0 Y a b = gram_spec v0 vadd vmul s (fun i => dbl (den_sp b0 S i)) n a b.
+Proof. exact (gram_sp_held_spec V v0 v1 vadd vmul vsub vopp Vring isz). Qed.
+Theorem C14_gram_tucker_held : forall (B : Type) (dbl : B -> V) (T : ttensor B) (n a b : nat),
+  let T' := tt_double dbl T in
+  wf_dense (tcore T') -> wf_tucker V T' -> n < length (tfactors T') ->
+  a < nrows (nth n (tfactors T') []) -> b < nrows (nth n (tfactors T') []) ->
+  gram_t_tm v0 vadd vmul T' n = Some (gram_t_impl v0 v1 vadd vmul T' n) /\
+  mget v0 (gram_t_impl v0 v1 vadd vmul T' n) a b = gram_spec v0 vadd vmul (tshape T') (den_t v0 v1 vadd vmul T') n a b.
+Proof. exact (gram_t_held_spec V v0 v1 vadd vmul vsub vopp Vring). Qed.
+
 (* wave 3b — the multi-mode sptensor.ttm chain H = core.ttm(V) of the sparse-core branch as the code runs it: first mode by the
    coordinate-level kernel of sptensor.ttm (C02_ttm_sparse; its ndarray result goes through from_array / to_sptensor / to_tensor),
    the remaining modes by tensor.ttm: the chain IS tensor.ttm over all modes of the expanded core, a well-formed dense tensor
@@ -219,6 +238,8 @@ Print Assumptions C14_sparse_all_singleton_refused.
 Print Assumptions C14_sparse_mode_refused.
 Print Assumptions C14_sparse_mode_nat.
 Print Assumptions C14_sparse_oneway_answered.
+Print Assumptions C14_gram_sparse_held.
+Print Assumptions C14_gram_tucker_held.
 Print Assumptions C14_sparse_ttm_chain.
 Print Assumptions C14_gram_tucker_sparse_core_code.
 Print Assumptions C14_gram_tucker_sparse_core_code_spec.
@@ -276,6 +297,12 @@ Example C14_example_gram_held :
   gram_dense_held 0%Z Z.add Z.mul (fun x : Z => x) (mkDense [2; 2] [200; 3; 100; 7]%Z) 0 = Some [[50000; 1300]; [1300; 58]]%Z /\
   gram_dense_tm 0%Z (fun x y => (x + y) mod 256)%Z (fun x y => (x * y) mod 256)%Z (mkDense [2; 2] [200; 3; 100; 7]%Z) 0 = Some [[80; 20]; [20; 58]]%Z.
 Proof. exact gram_held_example. Qed.
+
+Example C14_example_gram_sparse_held :
+  let S := mkSp [2; 2] [[0; 0]; [1; 0]; [0; 1]; [1; 1]] [200; 3; 100; 7]%Z in
+  gram_sp_code_path 0%Z Z.add Z.mul (sp_double (fun x : Z => x) S) 1 = Some [[40009; 20021]; [20021; 10049]]%Z /\
+  gram_sp_code_path 0%Z (fun x y => (x + y) mod 256)%Z (fun x y => (x * y) mod 256)%Z S 1 = Some [[73; 53]; [53; 65]]%Z.
+Proof. exact gram_sp_held_example. Qed.
 
 Example C14_example_gram_sparse_core :
   let GS := mkSp [2; 1; 2] [[1; 0; 1]; [0; 0; 0]; [1; 0; 0]] [3; 1; 2] in
